@@ -20,6 +20,16 @@ type Ctx struct {
 	Em   *Emitter
 	It   *Interp
 	Arg  string // replay argument
+	// sharding: every generator draws the same random choices in every shard and only
+	// executes the cases for which Mine() is true
+	Shard, Shards int
+	caseNo        int
+}
+
+// Mine reports whether the next expensive case belongs to this shard.
+func (c *Ctx) Mine() bool {
+	c.caseNo++
+	return c.Shards <= 1 || c.caseNo%c.Shards == c.Shard
 }
 
 func (c *Ctx) Thorough() bool { return c.Tier == "thorough" }
@@ -31,6 +41,8 @@ func main() {
 	seed := flag.String("seed", "1", "seed")
 	out := flag.String("out", "", "output JSONL file")
 	arg := flag.String("arg", "", "replay argument")
+	shard := flag.Int("shard", 0, "shard index")
+	shards := flag.Int("shards", 1, "number of shards")
 	flag.Parse()
 	if flag.NArg() < 1 {
 		names := []string{}
@@ -47,7 +59,7 @@ func main() {
 		os.Exit(2)
 	}
 	s, _ := strconv.ParseUint(*seed, 10, 64)
-	c := &Ctx{Tier: *tier, Seed: s, Rng: NewRng(s), Em: NewEmitter(*out), It: NewInterp(), Arg: *arg}
+	c := &Ctx{Tier: *tier, Seed: s, Rng: NewRng(s), Em: NewEmitter(*out), It: NewInterp(), Arg: *arg, Shard: *shard, Shards: *shards}
 	g(c)
 	c.Em.Close()
 }
